@@ -5,7 +5,11 @@ print('SIG:',r['signature']); print('MSG:',r['message'][:600]); print('shrink',r
 d=r['detail']
 for k in ('plan','sched','hash_seed','sem','path','baseline','variant','cause'):
     if k in d: print(k,':',json.dumps(d[k])[:400])
-w=d.get('world')
+w=d.get('world') or d.get('case',{}).get('world')
+for k in ('walk_options','roots','specifier','hops_to_result'):
+    if k in d: print(k,':',json.dumps(d[k])[:300])
+if 'case' in d:
+    for k in ('family_member','sem','sched'): print(k,':',json.dumps(d['case'].get(k))[:300])
 if w:
     for u,e in w['remote'].items():
         print('---',u, json.dumps(e)[:int(sys.argv[2]) if len(sys.argv)>2 else 300])
